@@ -162,14 +162,24 @@ func (va *VaralignBlock) Process(mkline *MkLine) {
 }
 
 func (va *VaralignBlock) processVarassign(mkline *MkLine) {
-	switch {
-	case mkline.fix != nil && mkline.fix.modified:
-		// Another fix has changed the raw text of the line, which may
-		// not even be a variable assignment anymore.
-		// Leave the alignment of this block to the next run.
-		va.skip = true
-		return
+	if mkline.fix != nil && mkline.fix.modified {
+		// Another fix has changed the raw text of the line.
+		// If that text is not a variable assignment anymore,
+		// it cannot be split into its parts;
+		// in that case, leave the alignment of this block to the next run.
+		lexer := textproc.NewLexer(mkline.RawText(0))
+		VaralignSplitter{}.parseLeadingComment(lexer, true)
+		main, _ := NewMkLineParser().unescapeComment(lexer.Rest())
+		parser := NewMkParser(nil, rtrimHspace(main))
+		_ = parser.mklex.Varname()
+		parser.lexer.SkipHspace()
+		if ok, _ := parser.Op(); !ok {
+			va.skip = true
+			return
+		}
+	}
 
+	switch {
 	case mkline.Op() == opAssignEval && matches(mkline.Varname(), `^[a-z]`):
 		// Arguments to procedures do not take part in block alignment.
 		//
